@@ -231,6 +231,9 @@ int main(int argc, char** argv) {
                 for (const auto& w : wells) {
                     if (rng.coin()) st.close_well(w, rng.coin() ? Opm::WellTestConfig::Reason::PHYSICAL : Opm::WellTestConfig::Reason::ECONOMIC, rng.range(0, 1e6));
                     if (rng.coin()) st.close_completion(w, 1 + rng.below(4), rng.range(0, 1e6));
+                    // ... and some are opened again (the entry stays, marked as not closed), some completions too
+                    if (st.well_is_closed(w) && rng.below(3) == 0) st.open_well(w);
+                    if (rng.below(4) == 0) { const int c = 1 + rng.below(4); if (st.completion_is_closed(w, c)) st.open_completion(w, c); }
                 }
                 Opm::WellTestState f;
                 round_trip(tr, id, "WellTestState", st, f, [&](const Opm::WellTestState& s) {
